@@ -33,6 +33,7 @@ UF = {
     'tanh': z3.Function('tanh', R, R),
     'erf': z3.Function('erf', R, R),
 }
+UF_BY_NAME = {f.name(): f for f in UF.values()}
 PI = z3.Real('pi')
 
 
